@@ -4,14 +4,14 @@ EXTENDS StreamOps
 
 AllBin == Arith \cup Cmp
 \* one operator per syntactic class
-Basis  == {"add", "pow", "floordiv", "lt", "eq", "and", "matmul", "sub"}
+Basis(unused) == {"add", "pow", "floordiv", "lt", "eq", "and", "matmul", "sub"}
 
 LeafSet(id, lens, pers) == {Leaf("S", id, n) : n \in lens} \cup {Leaf("I", id, n) : n \in lens}
                            \cup {Leaf("P", id, n) : n \in pers} \cup {Leaf("C", id, 0)}
 Str(id, lens, pers) == {Leaf("S", id, n) : n \in lens} \cup {Leaf("P", id, n) : n \in pers}
 
 \* depth 1: every operator, every operand-kind pair with a Stream on at least one side, lengths 0..3
-Depth1 == {p \in {Bin(op, l, r) : op \in AllBin, l \in LeafSet(1, 0..3, 1..2), r \in LeafSet(2, 0..3, 1..2)} : WellFormed(p)}
+Depth1(unused) == {p \in {Bin(op, l, r) : op \in AllBin, l \in LeafSet(1, 0..3, 1..2), r \in LeafSet(2, 0..3, 1..2)} : WellFormed(p)}
           \cup {Un(op, c) : op \in Unary, c \in Str(1, 0..3, 1..2)}
 
 L2(id) == LeafSet(id, {0, 2, 3}, {2})
@@ -22,6 +22,6 @@ Depth2(ops, unops) ==
   \cup {p \in {Un(u, Bin(o1, a, b)) : u \in unops, o1 \in ops, a \in L2(1), b \in L2(2)} : WellFormed(p)}
   \cup {p \in {Bin(o1, Un(u, a), b) : u \in unops, o1 \in ops, a \in Str(1, {0, 2, 3}, {2}), b \in L2(2)} : WellFormed(p)}
 
-C01Quick    == Depth1 \cup Depth2({"add", "lt"}, {"neg"})
-C01Thorough == Depth1 \cup Depth2(Basis, {"neg", "invert"})
+\* (TLC evaluates every zero-arity definition of the modules it loads at start-up, so the grids themselves
+\*  live in StreamOpsC01Q / StreamOpsC01T and everything here takes parameters or is small)
 =============================================================================
